@@ -151,6 +151,10 @@ class CFGBuilder(AstVisitor[BB | None]):
                 next_functional = False
             else:
                 prev_bb, bb_opt = bb_opt, self.visit(node, bb_opt, jumps)
+        if next_functional:
+            # The functional annotation was the last statement of the block, so there
+            # is nothing it applies to. Don't drop it silently.
+            raise NotImplementedError
         return bb_opt
 
     def _build_node_value(self, node: BBStatement, bb: BB) -> BB:
